@@ -30,10 +30,17 @@ impl<'a> Tape<'a> {
         }
         if n <= 32 {
             (self.byte() as usize * n) >> 8
-        } else {
+        } else if n <= 65536 {
             let v = ((self.byte() as usize) << 8) | self.byte() as usize;
-            assert!(n <= 65536);
             (v * n) >> 16
+        } else {
+            // positions in very long texts: four bytes, still monotone
+            assert!(n <= 1 << 31);
+            let mut v: u64 = 0;
+            for _ in 0..4 {
+                v = (v << 8) | self.byte() as u64;
+            }
+            ((v * n as u64) >> 32) as usize
         }
     }
     /// Inclusive range lo..=hi; zeros give lo.
